@@ -70,7 +70,12 @@ func convertAnyB58Keys(keys []string) []string {
 			continue
 		}
 
-		rawKey := base58.Decode(key)
+		// base58.Decode panics on a non-ASCII rune: such a key is no base58 key and is kept as it is
+		var rawKey []byte
+		if isASCII(key) {
+			rawKey = base58.Decode(key)
+		}
+
 		if len(rawKey) == 0 {
 			didKeys = append(didKeys, key)
 			continue
@@ -82,4 +87,14 @@ func convertAnyB58Keys(keys []string) []string {
 	}
 
 	return didKeys
+}
+
+func isASCII(s string) bool {
+	for i := 0; i < len(s); i++ {
+		if s[i] >= 0x80 { //nolint:gomnd
+			return false
+		}
+	}
+
+	return true
 }
